@@ -85,7 +85,11 @@ def verify(sid):
         shutil.rmtree(wt, ignore_errors=True)
 
 
+_STOP = []
+
+
 def _term(signum, frame):
+    _STOP.append(signum)          # a sweep (runall) ends after the run in progress has been undone
     raise SystemExit(f"terminated by signal {signum}")
 
 
@@ -180,6 +184,8 @@ def main():
                     run(sid, tier)
                 except SystemExit as e:       # e.g. a patch that no longer applies: report, go on
                     print(f"{sid:28s} NOT-RUN {e}")
+                    if _STOP:
+                        break
 
 
 if __name__ == "__main__":
